@@ -62,6 +62,7 @@ struct uftrace_raw_dump {
 	struct uftrace_dump_ops ops;
 	uint64_t file_offset;
 	uint64_t kbuf_offset;
+	bool perf_started;
 };
 
 struct uftrace_chrome_dump {
@@ -811,8 +812,10 @@ static void dump_raw_perf_start(struct uftrace_dump_ops *ops, struct uftrace_per
 {
 	struct uftrace_raw_dump *raw = container_of(ops, typeof(*raw), ops);
 
-	if (cpu == 0)
+	/* a blank line before the first perf file that is shown, whichever cpu it is */
+	if (!raw->perf_started)
 		pr_out("\n");
+	raw->perf_started = true;
 
 	pr_out("reading perf-cpu%d.dat\n", cpu);
 
@@ -1595,7 +1598,7 @@ perf:
 		if (statbuf.st_size == 0)
 			continue;
 
-		call_if_nonull(ops->perf_start, ops, perf, i);
+		call_if_nonull(ops->perf_start, ops, perf, perf->cpu);
 
 		while (!uftrace_done) {
 			struct uftrace_record *rec;
